@@ -450,7 +450,11 @@ func (h *hist) insertDocs(docs []map[string]any) []string {
 	if !h.noRefresh {
 		for _, ix := range h.c.Indexes {
 			if ix.Unique {
-				h.doSearch(&Query{Order: []Ord{{ix.Cols[0], false}}, Limit: 1}, 0, false)
+				var ord []Ord
+				for _, col := range ix.Cols {
+					ord = append(ord, Ord{col, false})
+				}
+				h.doSearch(&Query{Order: ord, Limit: 1}, 0, false)
 			}
 		}
 	}
